@@ -29,7 +29,8 @@ TraceBug == {}
 
 tvars == <<serial, req, slots, ev, out, l, cst, bad, drifted>>
 
-ContractCfg == [svcs |-> Services, required |-> {"host", "ident", "nick", "user"}, timeout |-> TimeoutOn]
+ContractCfg == [svcs |-> Services, required |-> {"host", "ident", "nick", "user"}, timeout |-> TimeoutOn,
+                cls |-> IF "cls" \in DOMAIN TraceCfg THEN TraceCfg.cls ELSE [on |-> FALSE, acct |-> "", none |-> ""]]
 
 TInit == /\ Init
          /\ l = 1
